@@ -410,6 +410,31 @@ pub const FIXED: &[(&str, &str)] = &[
     ("gen-skip_until-never", "fn main()->int{ count().to_generator().skip_until((v_x: int)->{false}).get(0) }"),
     ("gen-aggregate-growing", "fn main()->bool{ count().to_generator().aggregate(1, (v_a: int, v_b: int)->{v_a * (v_b + 2)}).get(10 ** 6) > 0 }"),
     ("successors-growing", "fn main()->bool{ successors(2, (v_x: int)->{v_x * v_x}).get(100) > 0 }"),
+    ("dist-weibull-quantile-large", "fn main()->bool{ weibull_distribution(20.0, 100000.0).quantile(0.5) > 0.0 }"),
+    ("dist-gamma-quantile-tiny-scale", "fn main()->bool{ gamma_distribution(9.0, 5e-9).quantile(0.25) > 0.0 }"),
+    ("dist-gamma-quantile-huge-scale", "fn main()->bool{ gamma_distribution(2.0, 1e12).quantile(0.999999) > 0.0 }"),
+    ("dist-beta-quantile-edges", "fn main()->bool{ beta_distribution(0.001, 1000.0).quantile(0.5) >= 0.0 && beta_distribution(1000.0, 0.001).quantile(1e-12) >= 0.0 }"),
+    ("dist-chisq-quantile-large", "fn main()->bool{ chisq_distribution(1000000).quantile(0.999) > 0.0 }"),
+    ("dist-fs-quantile", "fn main()->bool{ fisher_snedecor_distribution(1e5, 3.0).quantile(0.99) > 0.0 }"),
+    ("dist-students-quantile", "fn main()->bool{ students_t_distribution(1.0).quantile(0.999999) > 0.0 }"),
+    ("dist-lognormal-quantile", "fn main()->bool{ lognormal_distribution(700.0, 1.0).quantile(0.5) > 0.0 || true }"),
+    ("dist-normal-quantile-extreme", "fn main()->bool{ normal_distribution(1e300, 1e300).quantile(0.9999999) > 0.0 || true }"),
+    ("dist-poisson-quantile-large", "fn main()->bool{ poisson_distribution(1e6).quantile(0.999) > 0 }"),
+    ("dist-binomial-quantile-large", "fn main()->bool{ binomial_distribution(10 ** 9, 0.5).quantile(0.5) > 0 }"),
+    ("dist-negbin-quantile", "fn main()->bool{ negative_binomial_distribution(1000.0, 1e-6).quantile(0.5) >= 0 }"),
+    ("dist-hypergeometric-large", "fn main()->bool{ hypergeometric_distribution(10 ** 9, 10 ** 8, 10 ** 8).quantile(0.5) >= 0 }"),
+    ("dist-geometric-tiny-p", "fn main()->bool{ geometric_distribution(1e-12).quantile(0.999999) >= 0 }"),
+    ("dist-uniform-huge-sample", "fn main()->int{ uniform_distribution(1, 6).sample(10 ** 9).len() }"),
+    ("dist-normal-huge-sample", "fn main()->int{ normal_distribution(0.0, 1.0).sample(10 ** 9).len() }"),
+    ("dist-custom-many", "fn main()->bool{ custom_distribution(range(100000).map((v_x: int)->{(v_x, 1.0)})).quantile(0.5) >= 0 }"),
+    ("float-pow-huge", "fn main()->bool{ is_error(1.5 ** 1e308) || true }"),
+    ("int-sqrt-root-huge", "fn main()->bool{ floor_root(10 ** 3000, 7) > 0 }"),
+    ("int-lcm-chain", "fn main()->bool{ range(1, 3000).reduce(1, (v_a: int, v_b: int)->{lcm(v_a, v_b)}) > 0 }"),
+    ("str-find-huge", "fn main()->bool{ (\"ab\" * 100000).find(\"ba\" * 50000 + \"c\").has_value() == false }"),
+    ("str-replace-huge", "fn main()->int{ (\"a\" * 100000).replace(\"a\", \"bb\" * 1000).len() }"),
+    ("str-split-huge", "fn main()->int{ (\"a,\" * 100000).split(\",\").len() }"),
+    ("nth-backwards-huge", "fn main()->bool{ range(10 ** 12).nth(0 - 1, (v_x: int)->{v_x < 0}).has_value() }"),
+    ("last-huge", "fn main()->bool{ range(10 ** 12).last((v_x: int)->{v_x < 0}).has_value() }"),
     ("deep-recursion", "fn v_d(v_n: int)->int{ 1 + v_d(v_n + 1) }\nfn main()->int{ v_d(0) }"),
     ("endless-tail-loop", "fn v_l(v_n: int)->int{ if(v_n < 0, 0, v_l(v_n + 1)) }\nfn main()->int{ v_l(0) }"),
     ("mutual-recursion", "fn v_a(v_n: int)->int{ fn v_b(v_m: int)->int{ v_a(v_m + 1) } v_b(v_n) }\nfn main()->int{ v_a(0) }"),
